@@ -279,7 +279,8 @@ pub fn build_session(c: &HashMap<&str, &str>, objs: &[Vec<&str>]) -> Option<Sess
     scfg.fdt_duration = Duration::from_secs(c.get("fdtdur").and_then(|x| x.parse().ok()).unwrap_or(3600));
     scfg.fdt_carousel_mode = flute::sender::CarouselRepeatMode::DelayBetweenTransfers(Duration::from_secs(3600));
     // the FDT always travels with a roomy No-Code OTI so that tiny object OTIs do not explode it
-    let session_oti = Oti::new_no_code(1400, 64);
+    let fdte: u16 = c.get("fdte").and_then(|x| x.parse().ok()).unwrap_or(1400);
+    let session_oti = Oti::new_no_code(fdte, 64);
     let ep = UDPEndpoint::new(None, "224.0.0.1".to_string(), 1234);
     let mut sender = Sender::new(ep, 1, &session_oti, &scfg);
     let tc_count: u32 = c.get("tc").and_then(|x| x.parse().ok()).unwrap_or(1);
@@ -519,6 +520,37 @@ fn channel(kind: &str, seed: u64, arg: u64, g: &[Vec<u8>]) -> Vec<Vec<u8>> {
             let skip = (arg as usize).min(v.len());
             v = v[skip..].to_vec();
         }
+        "nofdt" | "holes" | "halffdt" => {
+            // nofdt: no TOI-0 packet at all; holes: the symbol with ESI = arg of every block is lost;
+            // halffdt: every second packet of every FDT instance is lost (instances never complete)
+            let mut w = Vec::new();
+            let mut fdt_seen = 0u64;
+            for p in v {
+                let keep = match flute::core::alc::parse_alc_pkt(&p) {
+                    Ok(pk) => {
+                        if pk.lct.toi == 0 {
+                            fdt_seen += 1;
+                            match kind {
+                                "nofdt" => false,
+                                "halffdt" => fdt_seen % 2 == 0,
+                                _ => true,
+                            }
+                        } else if kind == "holes" {
+                            // payload id of No-Code / Raptor: sbn 16 bits, esi 16 bits
+                            let pid = &p[pk.data_alc_header_offset..pk.data_payload_offset];
+                            !(pid.len() == 4 && (u16::from_be_bytes([pid[2], pid[3]]) as u64) == arg)
+                        } else {
+                            true
+                        }
+                    }
+                    Err(_) => true,
+                };
+                if keep {
+                    w.push(p);
+                }
+            }
+            v = w;
+        }
         _ => {}
     }
     v
@@ -542,6 +574,7 @@ pub fn eval(input: &str) -> String {
     let arg: u64 = x.get(3).and_then(|s| s.parse().ok()).unwrap_or(80);
     let seq = channel(x[1], seed, arg, &sess.genuine);
     let mut cleanup_at: Vec<usize> = Vec::new();
+    let mut sleep_at: Vec<(usize, u64)> = Vec::new();
     let mut drop_at: Option<usize> = None;
     if let Some(e) = secs.iter().find(|s| s[0] == "E") {
         for it in e[1..].iter().flat_map(|s| s.split(',')) {
@@ -549,6 +582,9 @@ pub fn eval(input: &str) -> String {
                 cleanup_at.push(i.parse().unwrap_or(0));
             } else if let Some(i) = it.strip_prefix("drop@") {
                 drop_at = Some(i.parse().unwrap_or(0));
+            } else if let Some(i) = it.strip_prefix("sleep@") {
+                let kv: Vec<&str> = i.split(':').collect();
+                sleep_at.push((kv[0].parse().unwrap_or(0), kv.get(1).and_then(|x| x.parse().ok()).unwrap_or(50)));
             }
         }
     }
@@ -565,23 +601,70 @@ pub fn eval(input: &str) -> String {
     rcfg.max_objects_error = c.get("maxerr").and_then(|s| s.parse().ok()).unwrap_or(0);
     rcfg.object_max_cache_size = c.get("cache").and_then(|s| s.parse().ok());
     rcfg.enable_fdt_expiration_check = c.get("exp").copied().unwrap_or("1") == "1";
-    rcfg.object_timeout = None;
+    rcfg.object_timeout = c.get("otimeout").and_then(|s| s.parse().ok()).map(Duration::from_millis);
     let ep = UDPEndpoint::new(None, "224.0.0.1".to_string(), 1234);
     let mut out: Vec<String> = sess.tables.clone();
+    // heap attributed to the receiver: net allocation inside its calls, minus what the monitoring
+    // writers logged meanwhile (freed later, outside the calls)
+    let mut recv_heap: isize = 0;
+    sh.borrow_mut().log.reserve(4096);
+    let h0 = crate::live_bytes();
     let mut receiver = Some(Receiver::new(&ep, 1, builder, Some(rcfg)));
+    recv_heap += crate::live_bytes() - h0;
     let now = t_ms(1000);
     let mut dead = false;
-    for (i, d) in seq.iter().enumerate() {
+    // wall-clock bookkeeping mirroring the receiver's Instant-based time-outs (oracle for the model)
+    let mut last_seen_obj: HashMap<u128, std::time::Instant> = HashMap::new();
+    let mut last_seen_fdt: HashMap<u32, std::time::Instant> = HashMap::new();
+    let otimeout = c.get("otimeout").and_then(|s| s.parse::<u64>().ok()).map(Duration::from_millis);
+    // a trailing cleanup (index = number of datagrams) is allowed
+    let nseq = seq.len();
+    for i in 0..=nseq {
         if dead {
             break;
         }
-        if cleanup_at.contains(&i) {
-            if let Some(r) = receiver.as_mut() {
-                let ok = catch(std::panic::AssertUnwindSafe(|| r.cleanup(now))).is_some();
-                out.push(format!("K~{}~-~{}", 1000, if ok { "Ok" } else { "PANIC" }));
-                out.extend(sh.borrow_mut().log.drain(..));
+        for (at, ms) in &sleep_at {
+            if *at == i {
+                std::thread::sleep(Duration::from_millis(*ms));
             }
         }
+        if cleanup_at.contains(&i) {
+            if let Some(r) = receiver.as_mut() {
+                let t0 = std::time::Instant::now();
+                let h0 = crate::live_bytes();
+                let ok = catch(std::panic::AssertUnwindSafe(|| r.cleanup(now))).is_some();
+                recv_heap += crate::live_bytes() - h0 - sh.borrow().log.iter().map(|s| s.capacity() as isize).sum::<isize>();
+                let (mut eo, mut ef): (Vec<String>, Vec<String>) = (Vec::new(), Vec::new());
+                if let Some(to) = otimeout {
+                    for (t, ls) in &last_seen_obj {
+                        if t0.duration_since(*ls) > to {
+                            eo.push(format!("{:x}", t));
+                        }
+                    }
+                    for (t, ls) in &last_seen_fdt {
+                        if t0.duration_since(*ls) > to {
+                            ef.push(format!("{:x}", t));
+                        }
+                    }
+                }
+                eo.sort();
+                ef.sort();
+                out.push(format!(
+                    "K~{}~{}~{}~{}",
+                    1000,
+                    if eo.is_empty() { "-".to_string() } else { eo.join(",") },
+                    if ef.is_empty() { "-".to_string() } else { ef.join(",") },
+                    if ok { "Ok" } else { "PANIC" }
+                ));
+                out.extend(sh.borrow_mut().log.drain(..));
+                out.push(format!("Q~{}~{}", r.nb_objects(), r.nb_objects_error()));
+                out.push(format!("H~{}", recv_heap));
+            }
+        }
+        if i == nseq {
+            break;
+        }
+        let d = &seq[i];
         if drop_at == Some(i) {
             let r = receiver.take();
             let ok = catch(std::panic::AssertUnwindSafe(move || drop(r))).is_some();
@@ -594,7 +677,18 @@ pub fn eval(input: &str) -> String {
             None => break,
         };
         let desc = describe_datagram(d, 1);
+        if let Ok(pk) = flute::core::alc::parse_alc_pkt(d) {
+            if pk.lct.toi == 0 {
+                if let Some(fi) = pk.fdt_info.as_ref() {
+                    last_seen_fdt.insert(fi.fdt_instance_id, std::time::Instant::now());
+                }
+            } else {
+                last_seen_obj.insert(pk.lct.toi, std::time::Instant::now());
+            }
+        }
+        let h0 = crate::live_bytes();
         let res = catch(std::panic::AssertUnwindSafe(|| r.push_data(d, now)));
+        recv_heap += crate::live_bytes() - h0 - sh.borrow().log.iter().map(|s| s.capacity() as isize).sum::<isize>();
         let rs = match res {
             Some(Ok(_)) => "Ok",
             Some(Err(_)) => "Err",
@@ -610,6 +704,7 @@ pub fn eval(input: &str) -> String {
         out.extend(sh.borrow_mut().log.drain(..));
         if !dead {
             out.push(format!("Q~{}~{}", r.nb_objects(), r.nb_objects_error()));
+            out.push(format!("H~{}", recv_heap));
         }
     }
     if !dead {
@@ -704,13 +799,73 @@ fn gen(args: &Args, emit: &mut dyn FnMut(String)) {
     }
 }
 
-pub fn run(args: &Args) {
+/// traffic that keeps objects undecodable (C17): no FDT, FDT-only OTI, missing symbols, many TOIs,
+/// FDT instances that never complete, small cache limits, time-outs with real (short) sleeps
+fn gen_mem(args: &Args, emit: &mut dyn FnMut(String)) {
+    let thorough = args.tier == "thorough";
+    let mut rng = Rng::new(args.seed.wrapping_mul(104729).wrapping_add(args.shard.0 * 17 + 3));
+    let count = if thorough { 4000 } else { 480 } / args.shard.1;
+    for i in 0..count {
+        let e = *rng.pick(&[8u32, 16, 32]);
+        let b = *rng.pick(&[2u32, 3, 4]);
+        let nobj = rng.range(1, 6);
+        let mut osecs = Vec::new();
+        for k in 0..nobj {
+            // mostly a few blocks, sometimes a long object (hundreds of packets)
+            let len = if rng.chance(1, 4) { rng.range((e * b) as u64 * 20, (e * b) as u64 * 60) } else if rng.chance(1, 12) { rng.range((e * b) as u64 * 150, (e * b) as u64 * 300) } else { rng.range((e * b) as u64, (e * b) as u64 * 6) };
+            osecs.push(format!("O {} {} 0 0", len, k + i % 13));
+        }
+        let cache = *rng.pick(&[64u64, 256, 1024, 4096, 10485760]);
+        let maxerr = *rng.pick(&[0u32, 1, 3]);
+        let (fec, par) = if rng.chance(1, 3) { ("rs28", 1) } else { ("nocode", 0) };
+        let scenario = rng.below(6);
+        let (fti, xk, xa, extra, ev): (u32, &str, u64, String, String) = match scenario {
+            // packets without FTI and no FDT: everything is cached
+            0 => (0, "nofdt", 0, String::new(), String::new()),
+            // FDT-only OTI arriving late
+            1 => (0, "late", rng.range(1, 30), String::new(), String::new()),
+            // a symbol of every block is missing: blocks accumulate
+            2 => (1, "holes", rng.below(2), String::new(), String::new()),
+            // FDT instances that never complete (many packets per instance, every second one lost)
+            3 => (1, "halffdt", 0, format!(" fdte={} mode=bt", rng.pick(&[16u32, 32])), String::new()),
+            // stalled objects and unfinished FDT instances released by cleanup after the time-out
+            4 => {
+                let n = rng.range(5, 40);
+                (1, "holes", 0, format!(" otimeout=25 fdte={} mode=bt", rng.pick(&[32u32, 1400])), format!(" ; E sleep@{}:60,cleanup@{}", n, n))
+            }
+            _ => {
+                let n = rng.range(5, 60);
+                (0, "nofdt", 0, " otimeout=25".to_string(), format!(" ; E sleep@{}:60,cleanup@{}", n, n))
+            }
+        };
+        emit(format!(
+            "V fec={} e={} b={} par={} cenc=null fti={} icenc=0 il={} once=1 maxerr={} cache={} md5=0 tc={} bld=S opn=1{} ; {} ; X {} {} {}{}",
+            fec,
+            e,
+            b,
+            par,
+            fti,
+            rng.range(1, 3),
+            maxerr,
+            cache,
+            rng.range(1, 2),
+            extra,
+            osecs.join(" ; "),
+            xk,
+            rng.below(1 << 30),
+            xa,
+            ev
+        ));
+    }
+}
+
+pub fn run(args: &Args, mem: bool) {
     if args.worker {
         worker_loop(eval, 2048);
         return;
     }
     let mut tr = Trace::new(args.out.as_deref());
-    let mut pool = WorkerPool::new("recv", 20);
+    let mut pool = WorkerPool::new(if mem { "memrecv" } else { "recv" }, 20);
     if let Some(rp) = &args.replay {
         for line in std::fs::read_to_string(rp).unwrap().lines() {
             let input = line.split('|').next().unwrap().trim();
@@ -720,6 +875,11 @@ pub fn run(args: &Args) {
             let out = pool.eval(input);
             tr.line(&format!("{} | {}", input, out));
         }
+    } else if mem {
+        gen_mem(args, &mut |input: String| {
+            let out = pool.eval(&input);
+            tr.line(&format!("{} | {}", input, out));
+        });
     } else {
         gen(args, &mut |input: String| {
             let out = pool.eval(&input);
